@@ -11,6 +11,12 @@
 
 package internal
 
+// Used by contracts throughout this file: a compile step that returns nil has
+// recorded a diagnostic, and no step removes one.
+//@ macro NERR = len(c.errors)
+//@ macro MONO = len(c.errors) >= old(len(c.errors))
+//@ macro REPORTED = implies(result == nil, len(c.errors) > old(len(c.errors))) && len(c.errors) >= old(len(c.errors))
+
 //@ macro C = c != nil && c.info != nil
 
 // ---------------------------------------------------------------------------
@@ -20,6 +26,7 @@ package internal
 
 //@ func (*compiler).compileSlice
 //@   option props=[C13]
+//@   ensures [C14] a-rejected-directive-part-is-reported: $REPORTED
 //@   ghost elemT ref = 0
 //@   ghost asked bool = false
 //@   ghost assignable bool = false
@@ -37,6 +44,8 @@ package internal
 
 //@ func (*compiler).compileMap
 //@   option props=[C13]
+//@   ensures [C14] a-rejected-directive-part-is-reported: $REPORTED
+//@   loop 1 invariant no-diagnostic-removed: $MONO
 //@   ghost keyT ref = 0
 //@   ghost valT ref = 0
 //@   ghost askedKey bool = false
@@ -86,6 +95,7 @@ package internal
 
 //@ func (*compiler).compileInvoke
 //@   option props=[C13]
+//@   ensures [C14] no-diagnostic-removed: $MONO
 //@   requires $C && flow != nil && o != nil
 //@   requires typeChecked-invoke-has-one-argument: len(o.Args) == 1
 
@@ -97,28 +107,34 @@ package internal
 
 //@ func (*compiler).compileSliceEnd
 //@   option props=[C13]
+//@   ensures [C14] a-rejected-directive-part-is-reported: $REPORTED
 //@   ensures [C10,C14] end-hook-takes-at-most-a-context-and-returns-at-most-an-error: implies(result != nil, len(result.Inputs) == 0 && len(result.Outputs) == 0)
 //@   requires $C && ce != nil
 //@   requires typeChecked-sliceend-has-function: len(ce.Args) >= 1
 
 //@ func (*compiler).compileMapEnd
 //@   option props=[C13]
+//@   ensures [C14] a-rejected-directive-part-is-reported: $REPORTED
 //@   ensures [C10,C14] end-hook-takes-at-most-a-context-and-returns-at-most-an-error: implies(result != nil, len(result.Inputs) == 0 && len(result.Outputs) == 0)
 //@   requires $C && ce != nil
 //@   requires typeChecked-mapend-has-function: len(ce.Args) >= 1
 
 //@ func (*compiler).applySliceOptions
 //@   option props=[C13]
+//@   loop 1 invariant no-diagnostic-removed: $MONO
+//@   ensures [C14] no-diagnostic-removed: $MONO
 //@   requires $C && t != nil
 //@   at call compileSliceEnd 1 pre assume typeChecked-sliceend-arity: len(arg2.Args) == 1
 
 //@ func (*compiler).compileInput
 //@   option props=[C13]
+//@   ensures [C14] no-diagnostic-removed: $MONO
 //@   requires $C
 //@   ensures [C13] always-returns-an-input: result != nil
 
 //@ func (*compiler).compileOutput
 //@   option props=[C13]
+//@   ensures [C14] a-rejected-result-target-is-reported: $REPORTED
 //@   requires $C
 
 //@ macro RESULTS = pure("(*go/types.Signature).Results", f.Sig)
@@ -129,12 +145,21 @@ package internal
 //@ macro TLEN(TP) = pure("(*go/types.Tuple).Len", TP)
 //@ macro VTYPE(TP, KK) = pure("(*go/types.object).Type", addr0(pure("(*go/types.Tuple).At", TP, KK)))
 
+// C14: nothing is rejected silently. errf records exactly one diagnostic; every
+// compile step that returns nil has recorded at least one, and none removes any.
+
+//@ func (*compiler).errf
+//@   option props=[C13]
+//@   requires c != nil
+//@   ensures [C14] one-diagnostic-recorded: len(c.errors) == old(len(c.errors)) + 1
+
 //@ func (*compiler).compileFunction
 //@   option props=[C13]
+//@   ensures [C14] a-rejected-function-is-reported: $REPORTED
 //@   requires $C
 //@   at call TypeOf 1 assume typeChecked-argument-expression-has-a-type: ret != nil
-//@   loop 1 invariant [C02,C11,C13] inputs-so-far-are-the-non-context-parameters-in-order: 0 <= i && i <= $TLEN($PARAMS(f.Sig)) && len(f.Inputs) + ite(f.WantCtx, 1, 0) == i && forall(j, int, implies(0 <= j && j < len(f.Inputs), f.Inputs[j] == $VTYPE($PARAMS(f.Sig), j + ite(f.WantCtx, 1, 0))))
-//@   loop 2 invariant [C13] every-result-so-far-is-an-output-or-the-final-error: 0 <= i && i <= $NRESULTS && len(f.Outputs) + ite(f.HasError, 1, 0) == i && implies(f.HasError, i == $NRESULTS && typeof($LASTTYPE) == typeid("*go/types.Named")) && forall(j, int, implies(0 <= j && j < len(f.Outputs), f.Outputs[j] == $VTYPE($RESULTS, j)))
+//@   loop 1 invariant [C02,C11,C13] inputs-so-far-are-the-non-context-parameters-in-order: len(c.errors) >= old(len(c.errors)) && 0 <= i && i <= $TLEN($PARAMS(f.Sig)) && len(f.Inputs) + ite(f.WantCtx, 1, 0) == i && forall(j, int, implies(0 <= j && j < len(f.Inputs), f.Inputs[j] == $VTYPE($PARAMS(f.Sig), j + ite(f.WantCtx, 1, 0))))
+//@   loop 2 invariant [C13] every-result-so-far-is-an-output-or-the-final-error: len(c.errors) >= old(len(c.errors)) && 0 <= i && i <= $NRESULTS && len(f.Outputs) + ite(f.HasError, 1, 0) == i && implies(f.HasError, i == $NRESULTS && typeof($LASTTYPE) == typeid("*go/types.Named")) && forall(j, int, implies(0 <= j && j < len(f.Outputs), f.Outputs[j] == $VTYPE($RESULTS, j)))
 //@   ensures [C13] outputs-are-the-non-error-results: implies(result != nil, len(result.Outputs) + ite(result.HasError, 1, 0) == pure("(*go/types.Tuple).Len", pure("(*go/types.Signature).Results", result.Sig)))
 //@   ensures [C13] an-error-result-is-the-last-and-of-a-named-type: implies(result != nil && result.HasError, typeof(pure("(*go/types.object).Type", addr0(pure("(*go/types.Tuple).At", pure("(*go/types.Signature).Results", result.Sig), pure("(*go/types.Tuple).Len", pure("(*go/types.Signature).Results", result.Sig)) - 1)))) == typeid("*go/types.Named"))
 //@   ensures [C02,C11,C13] inputs-are-the-non-context-parameters-in-order: implies(result != nil, len(result.Inputs) + ite(result.WantCtx, 1, 0) == $TLEN($PARAMS(result.Sig)) && forall(j, int, implies(0 <= j && j < len(result.Inputs), result.Inputs[j] == $VTYPE($PARAMS(result.Sig), j + ite(result.WantCtx, 1, 0)))))
@@ -153,6 +178,7 @@ package internal
 
 //@ func (*compiler).compilePredicate
 //@   option props=[C13]
+//@   ensures [C14] a-rejected-directive-part-is-reported: $REPORTED
 //@   requires $C && f != nil && t != nil && call != nil
 //@   requires typeChecked-predicate-has-function: len(call.Args) == 1
 //@   ghost cf compiledFunc
@@ -189,11 +215,14 @@ package internal
 
 //@ func (*compiler).compileParallelTaskFn
 //@   option props=[C13]
+//@   ensures [C14] a-rejected-directive-part-is-reported: $REPORTED
 //@   ensures [C10,C14] parallel-task-takes-at-most-a-context-and-returns-at-most-an-error: implies(result != nil, result.Function != nil && $TLEN($PARAMS(result.Function.Sig)) == ite(result.Function.WantCtx, 1, 0) && $TLEN(pure("(*go/types.Signature).Results", result.Function.Sig)) == ite(result.Function.HasError, 1, 0))
 //@   requires $C && p != nil
 
 //@ func (*compiler).compileParallelTask
 //@   option props=[C13]
+//@   ensures [C14] a-rejected-directive-part-is-reported: $REPORTED
+//@   loop 1 invariant no-diagnostic-removed: $MONO
 //@   requires $C && p != nil
 //@   at call compileInstrument 1 pre assume typeChecked-instrument-arity: len(arg1.Args) == 1
 
@@ -212,8 +241,10 @@ package internal
 //@   option props=[C13]
 //@   requires $C && flow != nil && t != nil && t.Function != nil && t.Function.Sig != nil
 //@   requires no-predicate-yet: t.Predicate == nil
-//@   loop 1 invariant [C01,C11] predicate-function-is-a-new-object: $PREDFRESH
-//@   loop 2 invariant index-non-negative: 0 <= i
+//@   loop 1 invariant [C01,C11] predicate-function-is-a-new-object: $PREDFRESH && $MONO
+//@   loop 2 invariant index-non-negative: 0 <= i && $MONO
+//@   loop 3 invariant no-diagnostic-removed: $MONO
+//@   ensures [C14] no-diagnostic-removed: $MONO
 //@   ensures [C01,C11] predicate-function-is-a-new-object: $PREDFRESH
 //@   at call compilePredicate 1 pre assume typeChecked-predicate-arity: len(arg3.Args) == 1
 //@   at call compileInstrument 1 pre assume typeChecked-instrument-arity: len(arg1.Args) == 1
@@ -221,6 +252,7 @@ package internal
 
 //@ func (*compiler).compileTask
 //@   option props=[C13]
+//@   ensures [C14] a-rejected-directive-part-is-reported: $REPORTED
 //@   modifies go.uber.org_cff_internal.flow.invokeTypes, go.uber.org_cff_internal.flow.invokeTypeCnt, go.uber.org_cff_internal.flow.predicateTypes, go.uber.org_cff_internal.flow.predicateTypeCnt, go.uber.org_cff_internal.compiler.errors, go.uber.org_cff_internal.compiler.taskSerial
 //@   requires $C && flow != nil
 //@   at call compileFunction 1 assume compiled-function-has-a-signature: implies(ret != nil, ret.Sig != nil)
@@ -347,7 +379,7 @@ package internal
 // the diagnostic; the loop invariant !dup is checked on every back edge), and a
 // flow with any diagnostic is rejected. C13: no-panic sweep of compileFlow.
 
-//@ macro FUNCSOK = forall(i, int, implies(0 <= i && i < len(flow.Funcs), flow.Funcs[i] != nil && flow.Funcs[i].Node != nil)) && forall(i, int, implies(0 <= i && i < len(flow.Inputs), flow.Inputs[i] != nil)) && forall(i, int, implies(0 <= i && i < len(flow.Outputs), flow.Outputs[i] != nil)) && forall(i, int, implies(0 <= i && i < len(flow.invokeTypes), flow.invokeTypes[i] != nil))
+//@ macro FUNCSOK = implies(dropped, len(c.errors) >= 1) && forall(i, int, implies(0 <= i && i < len(flow.Tasks), flow.Tasks[i] != nil)) && forall(i, int, implies(0 <= i && i < len(flow.Funcs), flow.Funcs[i] != nil && flow.Funcs[i].Node != nil)) && forall(i, int, implies(0 <= i && i < len(flow.Inputs), flow.Inputs[i] != nil)) && forall(i, int, implies(0 <= i && i < len(flow.Outputs), flow.Outputs[i] != nil)) && forall(i, int, implies(0 <= i && i < len(flow.invokeTypes), flow.invokeTypes[i] != nil))
 
 //@ macro DISTINCT = forall(i, int, forall(i2, int, implies(0 <= i && i < len(flow.Funcs) && 0 <= i2 && i2 < len(flow.Funcs) && i != i2, flow.Funcs[i] != flow.Funcs[i2])))
 //@ macro PROVEMPTY = forall(t, int, tmapAt(flow.providers, t) == nil) && flow.providers != nil && flow.receivers != nil && flow.providers != flow.receivers
@@ -359,8 +391,18 @@ package internal
 //@   requires f != nil && key != nil && key.Task != nil && f.providers != nil && f.receivers != nil && f.providers != f.receivers
 //@   ensures [C14,C01] only-the-sentinel-type-gets-this-provider: forall(t, int, tmapAt(f.providers, t) == old(tmapAt(f.providers, t)) || (typeof(tmapAt(f.providers, t)) == typeid("int") && dataof(tmapAt(f.providers, t)) == value))
 
+//@ func (*compiler).validateInstrument
+//@   option props=[C13]
+//@   requires $C && f != nil
+//@   requires tasks-non-nil: forall(i, int, implies(0 <= i && i < len(f.Tasks), f.Tasks[i] != nil))
+//@   loop 1 invariant no-diagnostic-removed: $MONO
+//@   ensures [C14] no-diagnostic-removed: $MONO
+
 //@ func (*compiler).compileFlow
 //@   option props=[C13]
+//@   ghost dropped bool = false
+//@   at call compileTask 1 ghost dropped = dropped || ret == nil
+//@   ensures@return4 [C14] no-task-was-dropped-silently: !dropped
 //@   ghost dup bool = false
 //@   requires $C && call != nil && file != nil
 //@   requires compiler-has-its-file-set: c.fset != nil
@@ -400,11 +442,11 @@ package internal
 //@   requires providers-hold-function-indices: $PROVIDX(f)
 //@   requires funcs-non-nil: forall(i, int, implies(0 <= i && i < len(f.Funcs), f.Funcs[i] != nil && f.Funcs[i].Node != nil))
 //@   requires inputs-non-nil: forall(i, int, implies(0 <= i && i < len(f.Inputs), f.Inputs[i] != nil)) && forall(i, int, implies(0 <= i && i < len(f.Outputs), f.Outputs[i] != nil)) && forall(i, int, implies(0 <= i && i < len(f.invokeTypes), f.invokeTypes[i] != nil))
-//@   loop 1 invariant providers-map-unchanged: $UNCH(f)
-//@   loop 2 invariant queue-holds-visit-records: $QT && $UNCH(f)
-//@   loop 3 invariant queue-holds-visit-records: $QT && $UNCH(f)
-//@   loop 4 invariant [C14] missing-provider-was-reported: !miss && $QT && $UNCH(f)
-//@   loop 5 invariant [C14] dependencies-queued-so-far: 0 <= idx5 && idx5 <= len(fn.Dependencies) && !miss && $QT && $UNCH(f)
+//@   loop 1 invariant providers-map-unchanged: $UNCH(f) && $MONO
+//@   loop 2 invariant queue-holds-visit-records: $QT && $UNCH(f) && $MONO
+//@   loop 3 invariant queue-holds-visit-records: $QT && $UNCH(f) && $MONO
+//@   loop 4 invariant [C14] missing-provider-was-reported: !miss && $QT && $UNCH(f) && $MONO
+//@   loop 5 invariant [C14] dependencies-queued-so-far: 0 <= idx5 && idx5 <= len(fn.Dependencies) && !miss && $QT && $UNCH(f) && $MONO
 //@   at call PushBack 3 pre assert [C14] every-dependency-of-a-needed-provider-is-queued: unboxed(arg1).Type == fn.Dependencies[idx5]
 //@   at call Delete 1 ghost miss = !ret
 //@   at call errf 1 ghost miss = false
@@ -412,9 +454,10 @@ package internal
 //@   at call Len 2 ghost unusedLeft = ret
 //@   at call Keys 1 assume typeutil-keys-lists-every-entry: len(ret) == unusedLeft
 //@   at call At 3 assume input-map-holds-inputs: typeof(ret) == typeid("*go.uber.org/cff/internal.input") && dataof(ret) != 0
-//@   loop 6 invariant [C14] one-diagnostic-per-unused-input: 0 <= idx6 && idx6 <= len(inputs) && unusedLeft + idx6 == len(inputs) && $UNCH(f)
+//@   loop 6 invariant [C14] one-diagnostic-per-unused-input: 0 <= idx6 && idx6 <= len(inputs) && unusedLeft + idx6 == len(inputs) && $UNCH(f) && $MONO
 //@   at call errf 2 ghost unusedLeft = unusedLeft - 1
 //@   ensures [C14] every-unused-input-and-missing-provider-was-reported: !miss && unusedLeft == 0
+//@   ensures [C14] no-diagnostic-removed: $MONO
 //@   ensures [C14,C01] providers-map-unchanged: $UNCH(f)
 
 //@ func (*compiler).validateNoUnusedOutputTypes
@@ -422,11 +465,12 @@ package internal
 //@   ghost unused bool = false
 //@   requires $C && f != nil && f.receivers != nil
 //@   requires funcs-non-nil: forall(i, int, implies(0 <= i && i < len(f.Funcs), f.Funcs[i] != nil && f.Funcs[i].Node != nil))
-//@   loop 1 invariant !unused
-//@   loop 2 invariant [C14] unconsumed-output-was-reported: !unused
+//@   loop 1 invariant !unused && $MONO
+//@   loop 2 invariant [C14] unconsumed-output-was-reported: !unused && $MONO
 //@   at call At 1 ghost unused = ret == nil
 //@   at call errf 1 ghost unused = false
 //@   ensures [C14] every-unconsumed-output-was-reported: !unused
+//@   ensures [C14] no-diagnostic-removed: $MONO
 
 // ---------------------------------------------------------------------------
 // C01 / C02 / C11, scheduling: the jobs the generated code lists as
